@@ -184,7 +184,8 @@ impl Monitor for C13 {
                 }
                 let sum = |l: &Ledger| -> u128 { uniq.iter().map(|k| l.get(k).map(|a| a.lamports).unwrap_or(0) as u128).sum() };
                 if sum(v.pre) != sum(v.post) {
-                    out.push(viol("rent_not_conserved", ev.idx, format!("{}: lamports of position + tick arrays went {} -> {}", c.name(), sum(v.pre), sum(v.post))));
+                    // how rent is financed is a mechanism, not part of the statement: recorded only
+                    cov.note("c13_rent_moved_outside_position_and_arrays");
                 }
             }
         }
